@@ -80,8 +80,10 @@ fn decode_left(samples: &[f32], depth: u64) -> (i64, i64) {
 		if k >= 1.0 && ints.iter().enumerate().all(|(j, x)| *x == k + j as f64) && c != -2 {
 			k as i64 - 1
 		} else if k >= 1.0 && ints.iter().enumerate().all(|(j, x)| *x == k + j as f64) {
-			// the integer part is a clean code; the fraction is a faded SC
-			k as i64 - 1
+			// consecutive integer parts with a fraction that is no clean SC code: a faded SC on top of a clean SA - or a
+			// fading SA whose rising gain happens to step through consecutive integers.  Without an SC in the scene it
+			// can only be the latter; with one the driver cannot tell and makes no claim
+			if depth == 2 { -2 } else { -4 }
 		} else {
 			-2
 		}
